@@ -33,6 +33,9 @@ type FuncContract struct {
 	Spec     bool   // spec function: Body holds the expression
 	Body     string // spec body
 	Rec      bool   // recursive spec function: an uninterpreted function plus definitional unfoldings
+	Lemma    bool   // lemma proved by induction on its last parameter
+	IndDir   string // "up" | "down"
+	IndFrom  string // start of the induction (expression over the other parameters)
 	Clauses  []Clause
 	File     string
 	Line     int
@@ -95,11 +98,15 @@ func ParseContractFile(path string) (*ContractFile, error) {
 		case strings.HasPrefix(t, "import "):
 			cf.Imports = append(cf.Imports, strings.TrimSpace(strings.TrimPrefix(t, "import ")))
 			lastClause = nil
-		case strings.HasPrefix(t, "func "), strings.HasPrefix(t, "extern func "), strings.HasPrefix(t, "spec func "):
+		case strings.HasPrefix(t, "func "), strings.HasPrefix(t, "extern func "), strings.HasPrefix(t, "spec func "), strings.HasPrefix(t, "lemma func "):
 			fc := &FuncContract{PkgDir: cf.PkgDir, File: path, Line: ln}
 			if strings.HasPrefix(t, "extern ") {
 				fc.Extern = true
 				t = strings.TrimPrefix(t, "extern ")
+			}
+			if strings.HasPrefix(t, "lemma ") {
+				fc.Lemma = true
+				t = "spec " + strings.TrimPrefix(t, "lemma ")
 			}
 			if strings.HasPrefix(t, "spec ") {
 				fc.Spec = true
@@ -131,6 +138,17 @@ func ParseContractFile(path string) (*ContractFile, error) {
 				return nil, fmt.Errorf("%s:%d: clause outside a function contract", path, ln)
 			}
 			kind, rest := splitWord(t)
+			if kind == "induction" && cur.Lemma {
+				// "induction up from <expr>" / "induction down from <expr>" (on the lemma's last parameter)
+				w, r2 := splitWord(rest)
+				w2, r3 := splitWord(r2)
+				if (w != "up" && w != "down") || w2 != "from" {
+					return nil, fmt.Errorf("%s:%d: expected 'induction up|down from <expr>'", path, ln)
+				}
+				cur.IndDir, cur.IndFrom = w, r3
+				lastClause = nil
+				continue
+			}
 			cl := Clause{Line: ln, Loop: -1}
 			if kind == "loop" {
 				var n int
@@ -147,7 +165,7 @@ func ParseContractFile(path string) (*ContractFile, error) {
 			}
 			switch kind {
 			case "requires", "ensures", "modifies", "invariant", "decreases", "local", "terminates", "inline",
-				"recovers", "nopanic", "fresh", "lemma", "assert", "assume", "pure", "split", "appends", "appendsAll", "copies", "mapStore", "mapDelete", "opaque", "panics", "trusted", "variant", "unroll", "calls_only", "lock", "ghost", "known":
+				"recovers", "nopanic", "fresh", "lemma", "assert", "assume", "pure", "split", "appends", "appendsAll", "copies", "mapStore", "mapDelete", "opaque", "panics", "trusted", "variant", "unroll", "calls_only", "lock", "ghost", "known", "uselemma":
 				cl.Kind = kind
 				cl.Text = rest
 				cur.Clauses = append(cur.Clauses, cl)
@@ -372,6 +390,7 @@ func __modifies(...interface{})     {}
 func __loopmodifies(int, ...interface{}) {}
 func __fresh(...interface{})        {}
 func __split(int, ...bool)          {}
+func __uselemma(int, func(int) bool) {}
 func __forall(lo, hi int, f func(int) bool) bool { return true }
 func __exists(lo, hi int, f func(int) bool) bool { return true }
 func out(w interface{}) []byte      { return nil }
@@ -482,6 +501,37 @@ func (cf *ContractFile) Generate() (string, error) {
 				continue
 			}
 			fmt.Fprintf(&sb, "\n%s { return %s }\n", fc.Sig, body)
+			if fc.Lemma {
+				from, err := RewriteExpr(fc.IndFrom)
+				if err != nil || strings.TrimSpace(fc.IndFrom) == "" {
+					return "", fmt.Errorf("%s:%d: lemma needs 'induction up|down from <expr>'", fc.File, fc.Line)
+				}
+				m := sigRe.FindStringSubmatchIndex(fc.Sig)
+				sig := fc.Sig[:m[8]] + fc.Name + "__from" + fc.Sig[m[9]:]
+				sig = sig[:strings.LastIndex(sig, ")")+1] + " int"
+				fmt.Fprintf(&sb, "\n%s { return %s }\n", sig, from)
+				// lemmas proved earlier that this proof may use: "uselemma other(args)" under the lemma header
+				usig := fc.Sig[:m[8]] + fc.Name + "__uses" + fc.Sig[m[9]:]
+				usig = usig[:strings.LastIndex(usig, ")")+1]
+				fmt.Fprintf(&sb, "\n%s {\n", usig)
+				for _, cl := range fc.Clauses {
+					if cl.Kind != "uselemma" {
+						continue
+					}
+					e, err := RewriteExpr(cl.Text)
+					if err != nil {
+						return "", fmt.Errorf("%s:%d: %v", fc.File, cl.Line, err)
+					}
+					e = strings.TrimSpace(e)
+					inner := e[:len(e)-1]
+					sep := ", "
+					if strings.HasSuffix(strings.TrimSpace(inner), "(") {
+						sep = ""
+					}
+					fmt.Fprintf(&sb, "\t__uselemma(-1, func(govcK int) bool { return %s%sgovcK) })\n", inner, sep)
+				}
+				sb.WriteString("}\n")
+			}
 			continue
 		}
 		// rename the function in its signature
@@ -581,6 +631,21 @@ func (cf *ContractFile) Generate() (string, error) {
 					return "", fmt.Errorf("%s:%d: %v", fc.File, cl.Line, err)
 				}
 				stmt = fmt.Sprintf("__appends(%s)", e)
+			case "uselemma":
+				e, err := RewriteExpr(cl.Text)
+				if err != nil {
+					return "", fmt.Errorf("%s:%d: %v", fc.File, cl.Line, err)
+				}
+				e = strings.TrimSpace(e)
+				if !strings.HasSuffix(e, ")") {
+					return "", fmt.Errorf("%s:%d: uselemma needs name(args)", fc.File, cl.Line)
+				}
+				inner := e[:len(e)-1]
+				sep := ", "
+				if strings.HasSuffix(strings.TrimSpace(inner), "(") {
+					sep = ""
+				}
+				stmt = fmt.Sprintf("__uselemma(%d, func(govcK int) bool { return %s%sgovcK) })", cl.Loop, inner, sep)
 			case "split":
 				e, err := RewriteExpr(cl.Text)
 				if err != nil {
